@@ -998,7 +998,9 @@ theorem newIndex_spec {config : IndexConfig} {index : Index} (h : newIndex confi
     · rename_i cols hc
       split at h
       · cases h
-      · simp only [Except.ok.injEq] at h; subst h; exact ⟨rfl, hc, rfl⟩
+      · split at h
+        · cases h
+        · simp only [Except.ok.injEq] at h; subst h; exact ⟨rfl, hc, rfl⟩
 
 theorem newIndex_coherent {config : IndexConfig} {index : Index} (h : newIndex config = .ok index) :
     IndexCoherent sch (fun _ => False) index := by
@@ -1227,5 +1229,60 @@ theorem dropIndex_keeps_id {c c' : Coll} {name : String} {dropped : List String}
   intro i hm
   rw [hi]
   exact List.mem_filter.mpr ⟨hm, hp _ rfl⟩
+
+/-! ### index names stay pairwise distinct -/
+
+theorem names_of_shape {idx idx' : List (String × Index)} (h : shape idx' = shape idx) :
+    idx'.map (·.1) = idx.map (·.1) := by
+  have := congrArg (List.map Prod.fst) h
+  simpa [shape, List.map_map, Function.comp_def] using this
+
+theorem NamesDistinct.of_shape {c c' : Coll} (h : NamesDistinct c)
+    (hs : shape c'.indexes = shape c.indexes) : NamesDistinct c' := by
+  unfold NamesDistinct at *; rw [names_of_shape hs]; exact h
+
+theorem NamesDistinct.new (b : Bool) : NamesDistinct (newColl b) := by
+  unfold NamesDistinct newColl; cases b <;> simp
+
+theorem NamesDistinct.createIndex {c c' : Coll} {name name' : String} {config : IndexConfig}
+    (hn : NamesDistinct c) (h : c.createIndex sch name config = .ok (c', name')) :
+    NamesDistinct c' := by
+  rcases (createIndex_spec h).2 with ⟨rfl, _⟩ | ⟨_, _, _, _, rfl, hnone, _⟩
+  · exact hn
+  · unfold NamesDistinct at *
+    rw [List.map_append, List.nodup_append]
+    refine ⟨hn, by simp, ?_⟩
+    intro a ha b hb
+    simp only [List.map_cons, List.map_nil, List.mem_singleton] at hb
+    subst hb
+    obtain ⟨p, hp, rfl⟩ := List.mem_map.mp ha
+    intro e
+    have : c.indexes.any (fun x => x.1 == p.1) = true := List.any_eq_true.mpr ⟨p, hp, by simp⟩
+    rw [e, hnone] at this; cases this
+
+theorem NamesDistinct.dropIndex {c c' : Coll} {name : String} {dropped : List String}
+    (hn : NamesDistinct c) (h : c.dropIndex name = .ok (c', dropped)) : NamesDistinct c' := by
+  obtain ⟨_, _, p, hi, _⟩ := dropIndex_spec h
+  unfold NamesDistinct at *
+  rw [hi]
+  exact (List.filter_sublist.map _).nodup hn
+
+/-- with distinct names, `lookup` is membership -/
+theorem lookup_of_mem : ∀ {idx : List (String × Index)} {n : String} {i : Index},
+    (idx.map (·.1)).Nodup → (n, i) ∈ idx → idx.lookup n = some i
+  | [], _, _, _, hm => by cases hm
+  | (m, j) :: r, n, i, hnd, hm => by
+    rw [List.map_cons, List.nodup_cons] at hnd
+    rw [List.lookup_cons]
+    rcases List.mem_cons.mp hm with e | hm'
+    · simp only [Prod.mk.injEq] at e
+      obtain ⟨rfl, rfl⟩ := e
+      simp
+    · have hne : (n == m) = false := by
+        simp only [beq_eq_false_iff_ne, ne_eq]
+        rintro rfl
+        exact hnd.1 (List.mem_map.mpr ⟨(n, i), hm', rfl⟩)
+      rw [hne]
+      exact lookup_of_mem hnd.2 hm'
 
 end Lungo
